@@ -4,6 +4,7 @@ Monitor part for every strategy (run-loop model) and the `clamp_power` lemmas.
 -/
 import SpiceEv.Proofs.ScenarioRun
 import SpiceEv.Model.StrategyUtil
+import SpiceEv.Proofs.Strategies
 set_option linter.unusedSectionVars false
 namespace SpiceEv
 variable {α : Type} [Field α] [LinearOrder α] [IsStrictOrderedRing α]
@@ -84,6 +85,46 @@ theorem C05_clamp_mono (p1 p2 cur mx mn vmin : α) (h : p1 ≤ p2) :
 the connector within its limit, whatever the battery then actually takes (`0 ≤ avg ≤ p`). -/
 theorem C05_headroom (load curMax p avg : α) (hp : p ≤ curMax - load) (ha : avg ≤ p) :
     load + avg ≤ curMax := by linarith
+
+/-- **Greedy and balanced never charge a station above its maximum.** For any battery obeying
+`BatLaw`, any number of vehicles, stations and connectors, with or without stationary batteries:
+after `Greedy.step` / `Balanced.step` (allocation pass, surplus/V2G pass, battery pass) every
+station's accumulated power is at most its (concurrency-scaled) maximum `≥ 0`. -/
+theorem C05_greedy_balanced_station {B : Type} (rule : Rule) (ops : BatOps α B) (law : BatLaw ops)
+    (env : StratEnv α) (w w' : World α B) (cmds : List (String × α))
+    (hmax : ∀ s ∈ w.stations, 0 ≤ s.maxPower)
+    (h : ruleStep rule ops env w = .ok (w', cmds)) :
+    ∀ s ∈ w'.stations, s.currentPower ≤ s.maxPower := by
+  unfold ruleStep at h
+  simp only [bind, Except.bind] at h
+  split at h
+  · cases h
+  · rename_i avail _
+    split at h
+    · cases h
+    · rename_i st1 hfold
+      obtain ⟨w1, c1, a1⟩ := st1
+      simp only at h
+      split at h
+      · cases h
+      · rename_i st2 hsur
+        obtain ⟨w2, c2⟩ := st2
+        simp only at h
+        split at h
+        · cases h
+        · rename_i w3 hub
+          simp only [Except.ok.injEq, Prod.mk.injEq] at h
+          obtain ⟨rfl, _⟩ := h
+          have h0 : StationInv (resetStations w) := by
+            intro s hs
+            unfold resetStations at hs
+            simp only [List.mem_map] at hs
+            obtain ⟨x, hx, rfl⟩ := hs
+            exact hmax x hx
+          have h1 := allocFold_station rule ops law env _ _ (w1, c1, a1) h0 hfold
+          have h2 := distributeSurplus_station ops law env w1 w2 c2 h1 hsur
+          rw [updateBatteries_stations ops env w2 w3 hub]
+          exact h2
 
 /-- Non-vacuity of `C05_clamp`: station at 3 of 11 kW, 10 kW offered → 8 kW. -/
 example : clampPower (10 : ℚ) 3 11 0 0 = 8 := by decide +kernel
